@@ -11,6 +11,10 @@ import TrustfallModel.Model.Carrier
 * `(plan-numbers <stem> <ir>)` — `planOf` of a repo test query.
 * `(carrier <ir> (sched n…))`, `(carrier-pre205 <ir> (sched n…))` — outcome of the carrier machine on
   the plan of the query (resp. its pre-#205 wiring) under an abstract schedule, with `fuelFor` fuel.
+* `(carrier-trace <schema> <data> <text> <ir> <args> <batching schedule> (abs n…))` — the abstract
+  schedule `n…` was derived by the harness from the real engine's nested call log under the given
+  batching schedule; answer `(trace <outcome> <activations served> <schedule entries left>)`: the
+  machine must serve exactly the activations the real run performed and read the schedule to its end.
 * `(chunk (w <u64>) <n>)` / `(chunk (k <size>…) <n>)` — sizes of the non-empty batches a
   `VariableChunkIterator` with that chunk sequence (resp. an explicit size list, then "the rest")
   pulls from an `n`-element input.
@@ -42,6 +46,13 @@ def handleCarrier : Handler
   | "plan-numbers", [_stem, ir] => do
     let q ← parseIR ir
     pure (renderPlan (planOf q))
+  | "carrier-trace", [_schema, _data, _text, ir, _args, _real, .list (.atom "abs" :: ns)] => do
+    let q ← parseIR ir
+    let s ← listMapM atomNat? ns
+    let p := planOf q
+    match Carrier.runStats p s (fuelFor p s) with
+    | (o, some (acts, rest)) => pure s!"(trace {o.render} {acts} {rest})"
+    | (o, none) => pure s!"(trace {o.render})"
   | "carrier", [ir, sched] => do
     let q ← parseIR ir
     let s ← parseSched sched
